@@ -374,10 +374,22 @@ class World:
         """body + all nested closure bodies, transitively"""
         out = []
         work = [id]
+        seen = set()
         while work:
             i = work.pop()
+            if i in seen:
+                continue
+            seen.add(i)
             if i in self.bodies:
-                out.append(self.bodies[i])
+                b = self.bodies[i]
+                out.append(b)
+                # closures constructed in the body although they are nested elsewhere by name: the closures of a helper that was
+                # inlined into this body (section 2.2a) keep the helper's name as their parent
+                for bl in b.blocks:
+                    for st in bl["st"]:
+                        r = st.get("r") or {}
+                        if r.get("k") == "agg" and r.get("def") and r["def"] in self.bodies and r["def"] not in seen:
+                            work.append(r["def"])
             work.extend(self.children(i))
         return out
 
